@@ -143,6 +143,14 @@ func RunKit(run *ev.Run, mounting string) {
 		return kit.Outcome{Err: &common.ErrorResponse{Status: p32(422), Message: ps(big), StackTrace: ps(strings.Repeat("at x.y(z)\n", 20000))}}
 	}})
 	outcomes = append(outcomes, outcome{"plain-error-large", func() kit.Outcome { return kit.Outcome{Err: errors.New(big)} }})
+	// an error response is an error whatever its status says (seed C08m: a client that trusts a 2xx status line before
+	// it looks at the error header delivers the error body as the result)
+	outcomes = append(outcomes, outcome{"error-response-success-status", func() kit.Outcome {
+		return kit.Outcome{Err: &common.ErrorResponse{Status: p32(202), Message: ps("accepted, but failed"), ExceptionClass: ps("com.example.Late")}}
+	}})
+	outcomes = append(outcomes, outcome{"error-response-status-200", func() kit.Outcome {
+		return kit.Outcome{Err: &common.ErrorResponse{Status: p32(200), Message: ps("failed with 200")}}
+	}})
 	for mask := 0; mask < 16; mask++ {
 		mask := mask
 		outcomes = append(outcomes, outcome{fmt.Sprintf("error-response-%02d", mask), func() kit.Outcome { return kit.Outcome{Err: errSubset(mask)} }})
